@@ -80,7 +80,7 @@ def all_specs():
         S.append(("block-arguments(phi)", "cfg", (v,)))
     for v in range(4):
         S.append(("llvm.getelementptr/load/store", "gep", (v,)))
-    for v in range(3):
+    for v in range(5):
         S.append(("llvm.call", "callargs", (v,)))
     return S
 
@@ -429,6 +429,18 @@ def _build(mg, name, kind, p):
             e = fb.raw_bin("shl", I64, e, sh, set())
             acc = e if acc is None else fb.raw_bin("xor" if k % 2 else "add", I64, acc, e, set())
         fb.ret(acc)
+    elif kind == "callargs" and p[0] >= 3:
+        (v,) = p
+        t = I64 if v == 3 else F64
+        h = G.FB(mg, name + "_callee", [("%a0", t), ("%a1", t)], t)
+        h.ret(h.raw_bin("sub", t, "%a0", "%a1", set()) if v == 3 else h.raw_fbin("fsub", t, "%a0", "%a1", set()))
+        mg.mod.funcs.append(h.f)
+        mg.done.add(h.f.name)
+        fb = G.FB(mg, name, [("%a0", t), ("%a1", t)], t)
+        txt = f"llvm.call @{h.f.name}(%a1, %a0) : ({t.mlir}, {t.mlir}) -> {t.mlir}"
+        r = fb.emit("call", t, ["%a1", "%a0"], {"callee": h.f.name, "cconv": "ccc", "tail": "none", "fm": set()}, txt,
+                    {"opc": "call", "callee": h.f.name, "cconv": "ccc", "tail": "none", "flags": set()})
+        fb.ret(r)
     elif kind == "callargs":
         (v,) = p
         h = G.FB(mg, name + "_callee", [("%a0", I64), ("%a1", I64), ("%a2", I32)], I64, cconv="ccc", linkage=["", "internal", "private"][v])
